@@ -1,6 +1,7 @@
 import Driver.Common
 import IoraModel.Model.DnsCache
 import IoraModel.Model.DnsTransport
+import IoraModel.Model.DnsTcp
 namespace Iora.Driver.Dns
 open Iora Iora.Dns Iora.DnsCache Iora.Driver
 
@@ -41,6 +42,37 @@ def showResult (r : Result) : String :=
 structure St where
   dc : DC := DC.new Gen.Dns.cacheDefaultTtl
   now : Nat := 0
+  tcap : Nat := Gen.Dns.tcpDefaultBuffer        -- `config_.maxTcpBufferSize` of the transport under test
+  ts : Option Iora.DnsTcp.TSt := none           -- receive side of the transport (`t reset` creates it)
+  both : Bool := false                          -- `config_.transportMode == Both` (truncated UDP answers fall back to TCP)
+
+def sortPairs (xs : List (Nat × Nat)) : List (Nat × Nat) :=
+  (xs.toArray.qsort (fun a b => a.1 < b.1 ∨ (a.1 = b.1 ∧ a.2 < b.2))).toList
+
+def showPending (p : List (Nat × Nat)) : String :=
+  if p.isEmpty then "-" else ",".intercalate ((sortPairs p).map fun (i, s) => s!"{i}@{s}")
+
+def showOut : Iora.DnsTcp.Out → String
+  | .done (.result id r) s => s!"R:{id}@{s}:{r.header.id}:{r.answers.length}"
+  | .done (.parseError id) s => s!"E:{id}@{s}:parse"
+  | .closed sid => s!"C:{sid}"
+  | .resent id _ t => s!"F:{t}:0002{toHex (be16 id)}"     -- the harness gives every pending query the 2-byte query data be16 id
+
+def showT (outs : List Iora.DnsTcp.Out) (buf : Option Nat) (t : Iora.DnsTcp.TSt) : String :=
+  let ev := if outs.isEmpty then "-" else ";".intercalate (outs.map showOut)
+  let b := match buf with | some n => s!" | buf={n}" | none => ""
+  s!"{ev}{b} | pending={showPending t.pending}"
+
+def bufLen (t : Iora.DnsTcp.TSt) (sid : Nat) : Nat := (Iora.DnsTcp.bufOf sid t.bufs).length
+
+def parsePend (s : String) : Option (List (Nat × Nat)) :=
+  if s = "-" then some [] else
+    (s.splitOn ",").mapM fun it =>
+      match it.splitOn "@" with
+      | [a, b] => match a.toNat?, b.toNat? with
+        | some a, some b => if a < 65536 ∧ b < 3 then some (a, b) else none
+        | _, _ => none
+      | _ => none
 
 def showDc (d : DC) : String :=
   let s := d.stats
@@ -76,10 +108,34 @@ def step (st : St) : List String → St × String
     match ofHex hx with
     | some m => (st, match parse m with | .ok r => showResult r | .error e => s!"err {showErr e}")
     | none => (st, "bad-op")
+  | ["parsev", hx] =>
+    -- the public wrapper `parse(const std::vector<uint8_t>&)` = `parse(data.data(), data.size())`
+    match ofHex hx with
+    | some m => (st, match parse m with | .ok r => showResult r | .error e => s!"err {showErr e}")
+    | none => (st, "bad-op")
+  | ["query1", id, n, t, c] =>
+    -- `buildQuery(question, id)` = `buildQuery({question}, true, id)`
+    match id.toNat?, parseQs [n, t, c] with
+    | some id, some qs =>
+      if id = 0 ∨ id > 65535 then (st, "bad-op")
+      else (st, match buildQuery qs true id 1 with | .ok w => toHex w | .error e => s!"err {showErr e}")
+    | _, _ => (st, "bad-op")
+  | "queryd" :: id :: rest =>
+    -- `buildQuery(questions, id)` = `buildQuery(questions, true, id)`
+    match id.toNat?, parseQs rest with
+    | some id, some qs =>
+      if id = 0 ∨ id > 65535 then (st, "bad-op")
+      else (st, match buildQuery qs true id 1 with | .ok w => toHex w | .error e => s!"err {showErr e}")
+    | _, _ => (st, "bad-op")
   | ["name", hx, off] =>
     match ofHex hx, off.toNat? with
     | some m, some o => (st, match decodeName m o with | .ok (n, nx) => s!"ok {toHex n} {nx}" | .error e => s!"err {showErr e}")
     | _, _ => (st, "bad-op")
+  | ["namev", hx, off, vs] =>
+    -- the public decodeNameWithLoopDetection with a caller-supplied visited set
+    match ofHex hx, off.toNat?, parseNats vs with
+    | some m, some o, some vs => (st, match decodeNameVisited m o vs with | .ok (n, nx) => s!"ok {toHex n} {nx}" | .error e => s!"err {showErr e}")
+    | _, _, _ => (st, "bad-op")
   | ["rdname", hx, rdStart, rdOff, rdLen] =>
     match ofHex hx, rdStart.toNat?, rdOff.toNat?, rdLen.toNat? with
     | some m, some s, some o, some l =>
@@ -113,6 +169,42 @@ def step (st : St) : List String → St × String
              let sorted := rest.toArray.qsort (· < ·) |>.toList
              s!"{ev} | pending={if sorted.isEmpty then "-" else ",".intercalate (sorted.map toString)}")
     | _, _, _ => (st, "bad-op")
+  | ["t", "reset", cap, mode] =>
+    match cap.toNat?, (if mode = "udp" ∨ mode = "tcp" ∨ mode = "both" then some () else none) with
+    | some c, some () => ({ st with tcap := c, ts := some {}, both := decide (mode = "both") }, "ok")
+    | _, _ => (st, "bad-op")
+  | ["t", "sess", sid, si] =>
+    match st.ts, sid.toNat?, si.toNat? with
+    | some t, some sid, some si =>
+      if si < 3 then ({ st with ts := some { t with sessions := (sid, si) :: t.sessions.filter (fun p => p.1 ≠ sid) } }, "ok") else (st, "bad-op")
+    | _, _, _ => (st, "bad-op")
+  | ["t", "pend", lst] =>
+    match st.ts, parsePend lst with
+    | some t, some ps =>
+      -- `pendingQueries_.emplace`: an existing key is kept
+      let t' := { t with pending := ps.foldl (fun acc p => if acc.contains p then acc else acc ++ [p]) t.pending }
+      ({ st with ts := some t' }, showT [] none t')
+    | _, _ => (st, "bad-op")
+  | ["t", "tcp", sid, hx] =>
+    match st.ts, sid.toNat?, ofHex hx with
+    | some t, some sid, some d =>
+      match Iora.DnsTcp.handleTcpData st.tcap t sid d with
+      | .error e => (st, s!"ESCAPED {showErr e}")
+      | .ok (outs, t') => ({ st with ts := some t' }, showT outs (some (bufLen t' sid)) t')
+    | _, _, _ => (st, "bad-op")
+  | ["t", "udp", sid, hx] =>
+    match st.ts, sid.toNat?, ofHex hx with
+    | some t, some sid, some d =>
+      match (if st.both then Iora.DnsTcp.handleUdpDataBoth t sid d else Iora.DnsTcp.handleUdpData t sid d) with
+      | .error e => (st, s!"ESCAPED {showErr e}")
+      | .ok (outs, t') => ({ st with ts := some t' }, showT outs none t')
+    | _, _, _ => (st, "bad-op")
+  | ["t", "close", sid] =>
+    match st.ts, sid.toNat? with
+    | some t, some sid =>
+      let t' := Iora.DnsTcp.handleClose t sid
+      ({ st with ts := some t' }, showT [] (some (bufLen t' sid)) t')
+    | _, _ => (st, "bad-op")
   | ["c", "new", ttl] =>
     match ttl.toNat? with
     | some t => let d := DC.new t; ({ dc := d, now := 0 }, s!"ok | {showDc d}")
